@@ -259,3 +259,57 @@ def repo_test_files():
         except (OSError, UnicodeDecodeError):
             pass
     return out
+
+
+def standard_streams(tier, rnd, focus):
+    """(name, iterable, exhaustive?) for a lexical check.  focus in {'c05','c09','c10','c11','c12'}"""
+    q = tier == "quick"
+    st = []
+    st.append(("reduced alphabet (36 symbols), all strings", exhaustive(REDUCED, 3 if q else 4), True))
+    if focus in ("c09", "c05", "c10"):
+        st.append(("splice/tab alphabet (9 symbols), all strings", exhaustive(SPLICE, 5 if q else 7), True))
+    if focus in ("c10", "c12", "c09", "c05"):
+        st.append(("di/trigraph alphabet (15 symbols), all strings", exhaustive(GRAPH, 4 if q else 5), True))
+    if focus in ("c10", "c11", "c05"):
+        st.append(("quote/escape alphabet (13 symbols), all strings", exhaustive(QUOTE, 4 if q else 6), True))
+    if focus in ("c11", "c05"):
+        st.append(("numeric alphabet (17 symbols), all strings", exhaustive(NUMERIC, 4 if q else 5), True))
+    st.append(("structured lexeme sequences", structured(rnd, 1500 if q else 40000), False))
+    st.append(("malformed: truncations, long runs", malformed(rnd, 400 if q else 8000), False))
+    st.append(("repository test files", repo_test_files(), False))
+    return st
+
+
+def run_lexical_check(run, tier, seed, focus, mine, replay=None):
+    """Shared body of C05a/C09/C10/C11/C12 lexical checks.  `mine`: failure kinds that are violations of THIS
+    property (others are only counted).  Returns found(bool)."""
+    rnd = random.Random(seed)
+    found = False
+    if replay is not None:
+        streams = [("replay", [replay["data"]["src"]], False)]
+    else:
+        streams = standard_streams(tier, rnd, focus)
+    other = {}
+    allfails = []
+    for name, gen, exh in streams:
+        n, fails, hist = run_strings(gen)
+        nontrivial = n - hist.get("exc:MaybeInfiniteLoop", 0)
+        run.count(name, n, nontrivial)
+        run.cov.setdefault("histogram", {})
+        for k, v in hist.items():
+            run.cov["histogram"][k] = run.cov["histogram"].get(k, 0) + v
+        allfails.extend(fails)
+    # smallest failing inputs first: they are the replays a reader wants
+    allfails.sort(key=lambda f: (len(f["src"]), f["src"]))
+    for f in allfails:
+        w = f["what"]
+        if w == "lexer-not-total" and f.get("exc") == "MaybeInfiniteLoop" and "lexer-not-total" in mine:
+            found |= run.violation("lexer-not-total", f, finding_id="C05-maybe-infinite-loop")
+        elif w in mine or w in ("correspondence-lexer", "driver-error"):
+            found |= run.violation(w, f)
+        else:
+            other[w] = other.get(w, 0) + 1
+    run.cov["failures_of_other_properties_seen"] = other
+    for x in list(structured(random.Random(seed), 2, 4, 8)):
+        run.sample(x)
+    return found
